@@ -83,7 +83,11 @@ def through_dotdot(path, on: bool):
 def num(v: int) -> str:
     """A number as the command line / a configuration file may spell it: the notation (0x.. hex, decimal, 0o.. octal, 0b.. binary)
     is free wherever the tool reads integers with base 0, so it varies with the value."""
-    return [hex, str, str, hex, oct, str, hex, bin][v % 8](v) if v >= 0 else str(v)
+    if v < 0:
+        return str(v)
+    # the choice is spread by a multiplicative hash: it must not be tied to the low bits (= the last digits) of the value
+    forms = [hex, str, lambda x: "0x%X" % x, hex, oct, str, lambda x: "0X%x" % x, bin]
+    return forms[((v * 2654435761) >> 11) % 8](v)
 
 
 def cli_cmd(*args) -> list:
